@@ -35,6 +35,8 @@ def replay_rotation(v, tol=1e-6):
     du = torch.einsum("k,kj->j", u, dR[0][:, 0, :])
     err_der = (du - u).abs().max().item()
     print("replay rotate_with_quaternion v=%s: |row0-v|=%.3e |RRt-I|=%.3e |det-1|=%.3e |tangent derivative error|=%.3e" % (v[0].tolist(), err_row, err_orth, err_det, err_der))
+    if not (bool(torch.isfinite(R).all()) and bool(torch.isfinite(dR).all())):
+        return True
     return max(err_row, err_orth, err_det) > tol or err_der > 1e-3
 
 
@@ -225,7 +227,7 @@ def replay_rotation_derivative(v, h=1e-6):
         fd = (rotate_with_quaternion(v + e) - rotate_with_quaternion(v - e)) / (2 * h)
         worst = max(worst, (fd[0] - dR[0, k]).abs().max().item())
     print("replay dRdv vs finite difference at v=%s: max error %.3e" % (v[0].tolist(), worst))
-    return worst > 1e-5
+    return (not (worst == worst)) or (not bool(torch.isfinite(dR).all())) or worst > 1e-5
 
 
 def _defs_from_side(side):
